@@ -449,4 +449,7 @@ pub fn run(ctx: &Ctx) {
         ctx.require_class("random_history", "duplicate_insert", 0.3);
         ctx.require_class("random_history", "delete_absent_class", 0.2);
     }
+    if ctx.tier == Tier::Thorough && !ctx.failed() {
+        crate::engine::fuzz::run_filter_ops(ctx, 2, 1_500_000);
+    }
 }
